@@ -52,7 +52,7 @@ class C14(Plugin):
     prop = 14
     counts = {"quick": 900, "thorough": 25000}
     rule = ("case = (strict converter, format in {extended prefix map, JSON-LD context, SHACL, TSV}, include_synonyms, expand); the converter is "
-            "written with the library's writer to a real file and read back with the library's loader (rdflib's Turtle parser and SPARQL for SHACL). "
+            "built by the constructor, by add_record one by one, or by add_prefix + merges of the synonyms, then written with the library's writer to a real file and read back with the library's loader (rdflib's Turtle parser and SPARQL for SHACL). "
             "EPM content over arbitrary Unicode (U+2028, NUL, quotes, backslash, astral); JSON-LD over non-empty prefixes not starting with '@'; "
             "SHACL / TSV over printable characters without double quote, angle brackets and controls, backslashes included; records with and "
             "without synonyms and patterns, pattern=''. Non-trivial: >= 2 records and (synonyms or a pattern or a backslash).")
@@ -70,13 +70,21 @@ class C14(Plugin):
                 recs = gen_recs(rng, [c for c in UNI if c != "\x00"] + ["@"], k, nonempty_prefix=True, no_at=True)
             else:
                 recs = gen_recs(rng, PRINTABLE, k)
-            yield [recs, fmt, int(rng.random() < 0.5), int(rng.random() < 0.5)]
+            yield [recs, fmt, int(rng.random() < 0.5), int(rng.random() < 0.5), rng.choice([0, 0, 1, 2, 2])]
 
     def observe(self, case):
         import curies
 
-        recs, fmt, syn, ex = case
-        c = curies.Converter(qprops.mk_records(recs))
+        recs, fmt, syn, ex = case[:4]
+        mode = case[4] if len(case) > 4 else 0
+        # the converter may have come about by the constructor, record by record, or by merging synonyms into bare records
+        try:
+            c = qprops.build_converter(recs, ":", mode)
+        except Exception as e:
+            return case, ["<build " + type(e).__name__ + ">"]
+        if mode:
+            recs = [qprops.v_record(r) for r in c.records]
+            case = [recs, fmt, syn, ex, mode]
         os.makedirs(os.path.join(ROOT, "_build", "tmp"), exist_ok=True)
         suffix = [".json", ".jsonld", ".ttl", ".tsv"][fmt]
         fd, path = tempfile.mkstemp(suffix=suffix, dir=os.path.join(ROOT, "_build", "tmp"))
